@@ -59,6 +59,8 @@ Result(gi, str) ==
     IN [g |-> gi, s |-> str, ntok |-> Len(lx.toks), n |-> n, same |-> (n = d),
         d |-> IF n = d THEN [ok |-> TRUE] ELSE d,
         expl |-> IF n = d THEN {} ELSE Explain(lx, d),
+        \* physical line of the token a syntax error of the deviating model points at (for InvC20)
+        dphys |-> IF ~d.ok /\ d.kind = "syntax" THEN lx.toks[d.at].line ELSE 0,
         viable |-> n.look > Len(lx.toks) \/ d.look > Len(lx.toks)]
 
 Init == /\ g \in DOMAIN Groups
@@ -75,6 +77,53 @@ Next == /\ Len(s) < Groups[g].maxlen
 Spec == Init /\ [][Next]_vars
 
 Emit == PrintT(ToJson(out))
+
+---------------------------------------------------------------------------
+(* The properties as invariants of the model WITH the listed deviations (cfg MCD_Parse.cfg).  They hold  *)
+(* for Deviations = {} and TLC must find a violation for every deviation that is switched on            *)
+(* (non-vacuity of each property).                                                                       *)
+DRes == IF out.same THEN out.n ELSE out.d
+
+(* C06: accepted iff derived, and the tree the table dictates (the normative reading is the reference) *)
+InvC06 == /\ DRes.ok = out.n.ok
+          /\ DRes.ok => DRes.tree = out.n.tree
+          /\ (~DRes.ok /\ DRes.kind \in {"syntax", "eof"}) => DRes.at = out.n.at
+
+(* C16: every rejection is a ParserError *)
+InvC16 == ~DRes.ok => DRes.msg.class = "ParserError"
+
+(* C20: a syntax error names the physical line of the offending token *)
+InvC20 == (~DRes.ok /\ DRes.kind = "syntax") => DRes.msg.line = out.dphys
+
+(* C15: a trailing comma after the last argument / element / entry is insignificant.  For every COMMA     *)
+(* directly before a closing bracket of an argument list, list literal or dict literal: if the string     *)
+(* without that comma is accepted, the string with it is accepted with the same tree.                     *)
+Openers == {"LPAREN", "LBRACKET", "LBRACE"}
+ClosersT == {"RPAREN", "RBRACKET", "RBRACE"}
+ExprEnd == {"NAME", "NUMBER", "STRING", "TRUE", "FALSE", "NONE"} \cup ClosersT
+RECURSIVE FindOpen(_, _, _)
+FindOpen(ty, j, depth) ==
+    IF j < 1 THEN 0
+    ELSE IF ty[j] \in ClosersT THEN FindOpen(ty, j - 1, depth + 1)
+    ELSE IF ty[j] \in Openers THEN (IF depth = 0 THEN j ELSE FindOpen(ty, j - 1, depth - 1))
+    ELSE FindOpen(ty, j - 1, depth)
+InvC15 ==
+    LET alpha == Groups[g].alphabet
+        toks == Lex(Render(alpha, s, 1)).toks
+        ty == [q \in DOMAIN toks |-> toks[q].type]
+        trailing(q) ==          \* token q is a COMMA in trailing position of an argument list / list / dict
+            /\ q > 1 /\ q < Len(ty) /\ ty[q] = "COMMA" /\ ty[q + 1] \in ClosersT /\ ty[q - 1] \in ExprEnd
+            /\ LET o == FindOpen(ty, q - 1, 0) IN
+               /\ o > 0
+               /\ ty[q + 1] = "RPAREN" => (ty[o] = "LPAREN" /\ o > 1 /\ ty[o - 1] = "NAME")
+               /\ ty[q + 1] = "RBRACKET" => (ty[o] = "LBRACKET" /\ (o = 1 \/ ty[o - 1] \notin ExprEnd))
+               /\ ty[q + 1] = "RBRACE" => ty[o] = "LBRACE"
+    IN Len(toks) = Len(s) =>
+       \A q \in DOMAIN ty :
+          trailing(q) =>
+             LET s2 == SubSeq(s, 1, q - 1) \o SubSeq(s, q + 1, Len(s))
+                 r2 == ParseLexedD(Lex(Render(alpha, s2, 1)), Deviations) IN
+             r2.ok => (DRes.ok /\ DRes.tree = r2.tree)
 
 (* the grammar constants, printed once; the harness compares them with the p_*.__doc__ strings, the    *)
 (* precedence table, the lexer's master-regex order and the generated LALR table of the tree under test *)
